@@ -91,6 +91,7 @@ type Stream struct {
 	// Read data above the sinceTs. All keys with version =< sinceTs will be ignored.
 	SinceTs      uint64
 	readTs       uint64
+	runTxn       *Txn // outside managed mode: the transaction whose snapshot the current run reads
 	db           *DB
 	rangeCh      chan keyRange
 	kvChan       chan *z.Buffer
@@ -177,6 +178,12 @@ func (st *Stream) produceKVs(ctx context.Context, threadId int) error {
 	var txn *Txn
 	if st.readTs > 0 {
 		txn = st.db.NewTransactionAt(st.readTs, false)
+	} else if st.runTxn != nil {
+		// Read the snapshot taken when the run started (see beginRun), not the one current when
+		// this goroutine happens to start. The run's transaction holds the read mark.
+		txn = st.db.newTransaction(false, true)
+		txn.readTs = st.runTxn.readTs
+		txn.doneRead = true
 	} else {
 		txn = st.db.NewTransaction(false)
 	}
@@ -415,6 +422,7 @@ outer:
 func (st *Stream) Orchestrate(ctx context.Context) error {
 	ctx, cancel := context.WithCancel(ctx)
 	defer cancel()
+	defer st.beginRun()()               // Released last, after every producer is done.
 	st.rangeCh = make(chan keyRange, 3) // Contains keys for posting lists.
 
 	// kvChan should only have a small capacity to ensure that we don't buffer up too much data if
@@ -474,6 +482,24 @@ func (st *Stream) Orchestrate(ctx context.Context) error {
 	// Wait for key streaming to be over.
 	err := <-kvErr
 	return err
+}
+
+// beginRun pins the snapshot of one run. Outside managed mode a single read-only transaction is
+// created when the run starts and held until it ends: every producer reads at its timestamp, so
+// that a run delivers one consistent snapshot even while other transactions commit, and its
+// read mark keeps compactions from discarding versions the run still has to read. The returned
+// function ends the run; it must be called exactly once, after all producers have returned.
+// In managed mode the caller chose the timestamp (NewStreamAt) and nothing is done here.
+func (st *Stream) beginRun() func() {
+	if st.db.opt.managedTxns || st.readTs > 0 {
+		return func() {}
+	}
+	txn := st.db.NewTransaction(false)
+	st.runTxn = txn
+	return func() {
+		st.runTxn = nil
+		txn.Discard()
+	}
 }
 
 func (db *DB) newStream() *Stream {
